@@ -5,6 +5,7 @@ import (
 	"go/constant"
 	"go/token"
 	"go/types"
+	"os"
 	"strings"
 
 	"golang.org/x/tools/go/ssa"
@@ -112,6 +113,9 @@ var servingScope = []string{
 // guard that makes them safe.  Other provenances are out of scope and counted.
 func ruleGuardedIndexing(c *Ctx, rule string) {
 	a := c.A
+	if os.Getenv("MUXLINT_DEBUG_SITES") != "" {
+		debugIndexSites(c)
+	}
 	c.R.Rule(c.R.Property+"."+rule, 8, "data-derived slice bounds and indexes on the serving path are guarded (no index out of range / slice bounds fault for any request)")
 	inServing := map[string]bool{}
 	for _, k := range servingScope {
